@@ -1264,6 +1264,10 @@ static WUR iwrc _kvblk_updatev(
       kb->flags |= KVBLK_DURTY;
     }
   } else {
+    if (rsize > IWKV_MAX_KVSZ) { // refuse before the old record is removed below
+      rc = IWKV_ERROR_MAXKVSZ;
+      goto finish;
+    }
     struct kvp tidx[KVBLK_IDXNUM];
     struct kvp tidx_tmp[KVBLK_IDXNUM];
     off_t koff = kb->pidx[pidx].off;
